@@ -44,6 +44,7 @@ type Thread struct {
 	vc      VC
 	s       *Sched
 	nev     uint32 // events executed so far
+	polled  bool   // the thread's last step was a poll that found nothing (select default, failed TryLock)
 	chain   chain  // thread-local object: progress + values returned by Choose
 }
 
@@ -53,28 +54,30 @@ func (t *Thread) Done() bool   { return t.done }
 
 // Sched is the state of one execution.
 type Sched struct {
-	threads   []*Thread
-	cur       *Thread
-	aborting  atomic.Bool
-	finished  chan struct{}
-	finOnce   bool
-	steps     int
-	horizon   int
-	x         *Execution
-	clock     int64
-	timers    []*timer
-	deadlines []deadlineEntry
-	sig       chain
-	monSig    chain
-	mon       map[string]int64
-	timeChain chain
-	visited   map[chain]int16
-	bound     int
-	merge     bool
-	chans     map[unsafe.Pointer]*chanModel
-	nextObj   int
-	locs      map[unsafe.Pointer]*locState
-	trace     bool
+	threads     []*Thread
+	cur         *Thread
+	aborting    atomic.Bool
+	finished    chan struct{}
+	finOnce     bool
+	steps       int
+	horizon     int
+	x           *Execution
+	clock       int64
+	timers      []*timer
+	spins       int
+	lonelyPolls int
+	deadlines   []deadlineEntry
+	sig         chain
+	monSig      chain
+	mon         map[string]int64
+	timeChain   chain
+	visited     map[chain]int16
+	bound       int
+	merge       bool
+	chans       map[unsafe.Pointer]*chanModel
+	nextObj     int
+	locs        map[unsafe.Pointer]*locState
+	trace       bool
 }
 
 // S is the scheduler of the execution in progress; nil in passthrough mode
@@ -325,6 +328,18 @@ func (s *Sched) point(o *op) {
 	t.pend = o
 	s.dispatch(t)
 	t.pend = nil
+	if t.polled {
+		t.polled = false
+		s.spins = s.lonelyPolls
+		if s.spins > 300 {
+			s.x.Deadlock = "livelock: 300 consecutive polls found nothing to do while no other thread could make progress; " + s.describeBlocked()
+			s.logf("LIVELOCK %s", s.x.Deadlock)
+			s.abortNow()
+			panic(abortPanic{})
+		}
+	} else {
+		s.spins, s.lonelyPolls = 0, 0
+	}
 	t.nev++
 	s.touch(&t.chain, 0x11)
 }
@@ -346,9 +361,15 @@ func (s *Sched) dispatch(from *Thread) {
 	for {
 		var en []*Thread
 		fromEnabled := false
+		// fairness for polling loops: a thread whose last step was a poll that found
+		// nothing yields — the others come first in the canonical order and switching
+		// to them is free (otherwise a spin loop would unroll up to the horizon)
+		yielding := !from.done && from.polled
 		if !from.done && from.pend != nil && !from.pend.quiesce && s.opEnabled(from) {
 			fromEnabled = true
-			en = append(en, from)
+			if !yielding {
+				en = append(en, from)
+			}
 		}
 		for _, t := range s.threads {
 			if t == from || t.done || t.pend == nil || t.pend.quiesce {
@@ -357,6 +378,12 @@ func (s *Sched) dispatch(from *Thread) {
 			if s.opEnabled(t) {
 				en = append(en, t)
 			}
+		}
+		if fromEnabled && yielding {
+			if len(en) == 0 {
+				s.lonelyPolls++ // nobody else can run: the poll loop is the only activity
+			}
+			en = append(en, from)
 		}
 		if len(en) == 0 {
 			if s.advanceTime() {
@@ -400,7 +427,11 @@ func (s *Sched) dispatch(from *Thread) {
 		}
 		if len(en) > 1 {
 			var costs []int
-			if fromEnabled && !from.pend.free {
+			if fromEnabled && yielding {
+				// staying on a thread that just polled in vain, although others can run, is a deviation
+				costs = make([]int, len(en))
+				costs[len(en)-1] = 1
+			} else if fromEnabled && !from.pend.free {
 				costs = make([]int, len(en))
 				for i := 1; i < len(en); i++ {
 					costs[i] = 1
